@@ -13,6 +13,9 @@ import (
 type mkBeh struct {
 	Items []mkItem `json:"items"`
 	Exp   []mkRes  `json:"exp"`
+	// the results under the other consistent pairing of same-name nesting (a close pairs
+	// with the most recent open marker of its name); empty when the pairing cannot matter
+	Alt []mkRes `json:"alt"`
 }
 
 type mkDiff struct {
@@ -22,13 +25,16 @@ type mkDiff struct {
 	Items   []mkItem `json:"items"`
 	Exp     []mkRes  `json:"exp"`
 	Got     mkRes    `json:"got"`
+	// "": matches neither reading; "first"/"last": the line is only explained by that
+	// pairing (reported when the other lines need the other one)
+	Pairing string `json:"pairing,omitempty"`
 }
 
 // mkReplayOne concretises one abstract line (variant 0: as printed, tight layout;
 // other variants: renamed characters, free layout) and compares the real result with
 // the results the specification allows.
 func mkReplayOne(b mkBeh, variant int, rnd *rand.Rand) (diff *mkDiff, line string) {
-	items, exp := b.Items, b.Exp
+	items, exp, alt := b.Items, b.Exp, b.Alt
 	layout := mkLayout{}
 	if variant > 0 {
 		sigma := mkRenaming(rnd)
@@ -37,19 +43,36 @@ func mkReplayOne(b mkBeh, variant int, rnd *rand.Rand) (diff *mkDiff, line strin
 		for i := range b.Exp {
 			exp[i] = mkRenameRes(b.Exp[i], sigma)
 		}
+		alt = make([]mkRes, len(b.Alt))
+		for i := range b.Alt {
+			alt[i] = mkRenameRes(b.Alt[i], sigma)
+		}
 		layout = mkLayout{rnd: rnd}
 	}
 	line = layout.line(items)
 	got := mkParse(&markup.LineParser{}, line)
 	g := mkCanon(got)
+	first, last := false, false
 	if got.Outcome == "result" || got.Outcome == "error" {
 		for _, e := range exp {
-			if mkCanon(e) == g {
-				return nil, line
-			}
+			first = first || mkCanon(e) == g
+		}
+		for _, e := range alt {
+			last = last || mkCanon(e) == g
 		}
 	}
-	return &mkDiff{Variant: variant, Input: mkCps(line), Items: items, Exp: exp, Got: got}, line
+	if first && (last || len(alt) == 0) {
+		return nil, line
+	}
+	d := &mkDiff{Variant: variant, Input: mkCps(line), Items: items, Exp: exp, Got: got}
+	switch {
+	case first:
+		d.Pairing = "first"
+	case last:
+		d.Pairing = "last"
+		d.Exp = exp
+	}
+	return d, line
 }
 
 func markupReplay(m map[string]string) error {
@@ -63,7 +86,10 @@ func markupReplay(m map[string]string) error {
 	}
 	variants := argInt(m, "variants", 2)
 	rnd := rand.New(rand.NewSource(Seed()))
-	nDiff, nRuns, nMulti, nEdge := 0, 0, 0, 0
+	nDiff, nRuns, nMulti, nEdge, nNested := 0, 0, 0, 0, 0
+	// lines only explained by one pairing of same-name nesting: all of them must agree
+	pairCount := map[string]int{}
+	pairKept := map[string][]*mkDiff{}
 	var sample string
 	for ci, raw := range lines {
 		var b mkBeh
@@ -73,6 +99,9 @@ func markupReplay(m map[string]string) error {
 		if len(b.Exp) > 1 {
 			nEdge++
 		}
+		if len(b.Alt) > 0 {
+			nNested++
+		}
 		for v := 0; v < variants; v++ {
 			d, line := mkReplayOne(b, v, rnd)
 			nRuns++
@@ -81,6 +110,14 @@ func markupReplay(m map[string]string) error {
 			}
 			if ci == len(lines)/2 && v == variants-1 {
 				sample = line
+			}
+			if d != nil && d.Pairing != "" {
+				d.Case = ci
+				pairCount[d.Pairing]++
+				if len(pairKept[d.Pairing]) < 40 {
+					pairKept[d.Pairing] = append(pairKept[d.Pairing], d)
+				}
+				continue
 			}
 			if d != nil {
 				d.Case = ci
@@ -94,11 +131,26 @@ func markupReplay(m map[string]string) error {
 			}
 		}
 	}
+	// one reading must explain every line: when both are needed, the lines of the rarer one
+	// (ties: the ones that need the upstream pairing) are the divergences
+	if pairCount["first"] > 0 && pairCount["last"] > 0 {
+		minority := "last"
+		if pairCount["first"] < pairCount["last"] {
+			minority = "first"
+		}
+		for _, d := range pairKept[minority] {
+			nDiff++
+			if err := out.Write(d); err != nil {
+				return err
+			}
+		}
+	}
 	if err := out.Close(); err != nil {
 		return err
 	}
 	stats, _ := json.Marshal(map[string]any{"cases": len(lines), "runs": nRuns, "diffs": nDiff,
-		"multibyte_runs": nMulti, "edge_whitespace_cases": nEdge, "sample": mkCps(sample)})
+		"multibyte_runs": nMulti, "edge_whitespace_cases": nEdge, "sample": mkCps(sample),
+		"same_name_nesting_cases": nNested, "pairing_first_only": pairCount["first"], "pairing_last_only": pairCount["last"]})
 	fmt.Println(string(stats))
 	return nil
 }
